@@ -137,7 +137,7 @@ def conversion_stratum(ctx, prop, n):
         for who, what, detail in bad:
             if who == 'harness':
                 ctx.tie_break('harness error in the conversion stratum: ' + what, case)
-            elif who == prop:
+            elif who == prop or (prop == 'C10' and who == 'C08'):     # roles / definitions are C10's concern too
                 ctx.violation(what, {'conversion_case': case, 'detail': detail})
 
 
